@@ -208,7 +208,7 @@ func (r *Reader) parseWorksheets() error {
 
 	for i, sheetRef := range r.workbook.Sheets.Sheet {
 		// Find the sheet file path from relationships
-		target := r.sheetRels[sheetRef.RID]
+		target := r.sheetRels[sheetRef.relID()]
 		if target == "" {
 			// Try default naming
 			target = fmt.Sprintf("worksheets/sheet%d.xml", i+1)
